@@ -100,6 +100,8 @@ struct ObsState {
     batches: u64,
     // ---- daser's view (this epoch)
     attempts: BTreeMap<u64, Attempt>,
+    /// wall clock when the daser read a height's header (its window check follows at once)
+    header_read_at: BTreeMap<u64, i64>,
     ongoing: BTreeSet<u64>,
     /// peers are connected as far as the node has been told (peer-tracker info published)
     connected: bool,
@@ -345,7 +347,7 @@ impl Obs {
         ctx.oracle("C34.inside_window");
         if height <= self.chain.len() {
             let t = time_to_ns(self.chain.time_of(height));
-            let now = ctx.wall_now_ns();
+            let now = st.header_read_at.get(&height).copied().unwrap_or_else(|| ctx.wall_now_ns());
             if t < now - self.sampling_window_ns - EPS_NS {
                 ctx.violation("C34", "inside_window", "daser",
                     format!("sampling of height {height} started although its block is {} s older than the sampling window", (now - self.sampling_window_ns - t) / 1_000_000_000));
@@ -483,6 +485,10 @@ impl StoreObserver for Obs {
                             format!("the store accepted a header at height {} (hash {}) that is not the honest block of that height", h.height(), h.hash()));
                     }
                 }
+            }
+            ("daser", Call::GetByHeight(h), Ret::Header(_)) => {
+                let now = ctx.wall_now_ns();
+                st.header_read_at.insert(*h, now);
             }
             ("daser", Call::UpdateMeta(h, cids), Ret::Unit) => self.on_attempt(&mut st, *h, cids),
             ("daser", Call::MarkSampled(h), Ret::Unit) => {
@@ -673,6 +679,7 @@ async fn run_node(ctx: &Arc<RunCtx>) {
             announced: Vec::new(),
             batches: 0,
             attempts: BTreeMap::new(),
+            header_read_at: BTreeMap::new(),
             ongoing: BTreeSet::new(),
             connected: true,
             events: None,
